@@ -412,7 +412,9 @@ fn join_case(front: Front, reg: Reg, dl_fixed: Option<u8>, rng: &mut Prng, col: 
             }
         } else {
             col.event("rx1off_ignored");
-            if s.rx1_dr_offset != exp_off_prev {
+            // 'ignored': the accept's value is not taken; what stays in force is the value from before the
+            // join or the regional default (a join may return the receive parameters to their defaults)
+            if s.rx1_dr_offset != exp_off_prev && s.rx1_dr_offset != 0 {
                 col.violation(&format!("C11|rx1-offset-invalid-applied|{}|off={}", reg.name(), off), "RX1DROffset beyond the regional maximum was applied", json!({"ctx": ctx("off"), "got": s.rx1_dr_offset, "before": exp_off_prev}));
             }
         }
@@ -423,7 +425,7 @@ fn join_case(front: Front, reg: Reg, dl_fixed: Option<u8>, rng: &mut Prng, col: 
             }
         } else if !reg.dr_defined_in_some_edition(r2) {
             col.event("rx2dr_ignored");
-            if s.rx2_data_rate != snap_before.rx2_data_rate {
+            if s.rx2_data_rate != snap_before.rx2_data_rate && s.rx2_data_rate.is_some() {
                 col.violation(&format!("C11|rx2-dr-undefined-applied|{}|dr={}", reg.name(), r2), "an RX2 data rate the region does not define was applied", json!({"ctx": ctx("rx2"), "got": s.rx2_data_rate, "before": snap_before.rx2_data_rate}));
             }
         }
